@@ -125,6 +125,9 @@ def run_one(sh, case, driver='generated'):
                 sh.note('via_BycycleGroup')
             else:
                 opts = copy.deepcopy(kw)
+                for dst, src in (case.get('alias') or []):
+                    opts[dst] = opts[src]               # one dict object at both positions (equal values by construction)
+                    sh.note('option_list_with_one_object_at_several_positions')
                 res = compute_features_2d(as_layout(sigs), fs, f_range, compute_features_kwargs=opts,
                                           axis=None, return_samples=True, n_jobs=1)
                 if case.get('reuse_options'):
@@ -298,7 +301,11 @@ def make_case(rng):
             if rng.random() < 0.25:
                 del o['threshold_kwargs']          # this epoch uses the documented defaults
             kw.append(o)
-    return dict(sigs=sigs, fs=fs, f_range=(lo, hi), kwargs=kw, aligned=bool(aligned), family=fam,
+    alias = None
+    if isinstance(kw, list) and len(kw) >= 3 and rng.random() < 0.35:
+        alias = [[len(kw) - 1, 0]]
+        kw[-1] = copy.deepcopy(kw[0])
+    return dict(sigs=sigs, fs=fs, f_range=(lo, hi), kwargs=kw, aligned=bool(aligned), family=fam, alias=alias,
                 layout=['C', 'C', 'F', 'T'][int(rng.integers(0, 4))], reuse_options=bool(rng.random() < 0.4),
                 api='obj' if (isinstance(kw, dict) and rng.random() < 0.25) else 'func')
 
